@@ -75,6 +75,49 @@ def qtol(ctx: Ctx, D: Poly, tol: float, stats: QStats | None = None):
     return r, tot, len(D.t)
 
 
+def qrel(ctx: Ctx, D: Poly, R: Poly, rel: float, floor: float, stats: QStats | None = None):
+    """Decide the pointwise-relative claim
+         forall inputs in box: |D| <= sum_m (rel*|r_m| + floor) * |m|
+    (r_m = coefficients of R, m ranges over the monomials of D) in the independent-monomial
+    abstraction: y_m = p_m - n_m, 0 <= p_m, n_m <= bound(m), |y_m| replaced by p_m + n_m
+    (exact at the optimum).  QF_LRA; `unsat` proves the claim on the whole box.
+    Returns (verdict, worst monomial info)."""
+    t0 = time.time()
+    if not D.t:
+        if stats:
+            stats.add("Q-tol", "unsat(zero-poly)", 0.0)
+        return "unsat", None
+    s = z3.Solver()
+    s.set("timeout", Z3_TIMEOUT_MS)
+    pos, neg = [], []
+    worst = None
+    for i, (m, d) in enumerate(D.t.items()):
+        c = Fraction(rel) * abs(R.t.get(m, 0)) + Fraction(floor)
+        b = mono_bound(ctx, m) if m else 1.0
+        bb = _rv(Fraction(b))
+        p = z3.Real(f"p{i}")
+        s.add(p >= 0, p <= bb)
+        y = p
+        ab = p
+        if m and not _nonneg(ctx, m):
+            n = z3.Real(f"n{i}")
+            s.add(n >= 0, n <= bb)
+            y = p - n
+            ab = p + n
+        elif not m:
+            s.add(p == 1)
+        pos.append(_rv(d) * y - _rv(c) * ab)
+        neg.append(-_rv(d) * y - _rv(c) * ab)
+        ex = abs(float(d)) - float(c)
+        if ex > 0 and (worst is None or ex * b > worst[0]):
+            worst = (ex * b, m, float(d), float(c))
+    s.add(z3.Or(z3.Sum(pos) > 0, z3.Sum(neg) > 0))
+    r = str(s.check())
+    if stats:
+        stats.add("Q-tol", r, time.time() - t0)
+    return r, worst
+
+
 def _nonneg(ctx, m):
     i = 0
     n = len(m)
@@ -202,6 +245,55 @@ def qlia_bounds(index_terms, constraints, extent_checks, stats: QStats | None = 
             stats.add("Q-lia", r, time.time() - t0)
         out.append((label, r, m))
     return out
+
+
+def rel_excess(ctx: Ctx, D: Poly, R: Poly, rel: float, floor: float, val) -> float:
+    """|D(x)| - sum_m (rel*|r_m|+floor)*|m(x)| at a concrete point (val: var id -> float)."""
+    tot = 0.0
+    allow = 0.0
+    for m, d in D.t.items():
+        x = 1.0
+        for v in m:
+            x *= val(v)
+        tot += float(d) * x
+        allow += (rel * abs(float(R.t.get(m, 0))) + floor) * abs(x)
+    return abs(tot) - allow
+
+
+def allowance(ctx: Ctx, D: Poly, R: Poly, rel: float, floor: float, env: dict) -> float:
+    val = ctx.evaluator(env)
+    allow = 0.0
+    for m in set(D.t) | set(R.t):
+        x = 1.0
+        for v in m:
+            x *= val(v)
+        allow += (rel * abs(float(R.t.get(m, 0))) + floor) * abs(x)
+    return allow
+
+
+def witness_rel(ctx: Ctx, D: Poly, R: Poly, rel: float, floor: float, base_env: dict | None, ok_fn, tries=60, seed=0):
+    """Concrete candidate input maximising the pointwise excess; only a candidate: it is
+    replayed on the compiled kernel before anything is reported."""
+    import random
+
+    rnd = random.Random(seed)
+    names = [v for v in ctx.vars if v.defn is None and v.kind != "havoc"]
+    best = None
+    for k in range(tries):
+        env = {}
+        for v in names:
+            if base_env and v.name in base_env:
+                env[v.name] = base_env[v.name] + (rnd.uniform(-0.1, 0.1) if k else 0.0)
+            else:
+                env[v.name] = round(rnd.choice([-1, 1]) * rnd.uniform(0.3, 1.8), 3)
+        try:
+            val = ctx.evaluator(env)
+            ex = rel_excess(ctx, D, R, rel, floor, val)
+        except Exception:
+            continue
+        if ex == ex and ex > 0 and ok_fn(env) and (best is None or ex > best[0]):
+            best = (ex, env)
+    return best[1] if best else None
 
 
 def witness_search(ctx: Ctx, D, tol: float, base_env: dict | None = None, tries: int = 60, seed: int = 0,
